@@ -13,7 +13,7 @@ Inductive c10case :=
    carries, the key that decrypts the served segments (licence / CPIX file), the constant IV *)
 | CSeg (id : Z) (mode : drmMode) (assetName laURL : bytes) (ctype : Z)
        (o_mpd : bytes * Z) (o_init : bytes * Z) (o_key : bytes) (o_civ : bytes)
-       (o_la : list (bytes * bytes))
+       (o_la : list (bytes * bytes)) (o_served : bool)   (* the protected segment was answered 200 *)
 (* drm request on an asset: pre-encrypted flag, encryption data prepared;
    MPD refused?, segment encrypted again? *)
 | CPre (id : Z) (preEnc hasEnc : bool) (o_mpdRefused o_encrypted : bool)
@@ -22,7 +22,7 @@ Inductive c10case :=
 | CLoad (id : Z) (encryptable stored : bool) (o_prepared : bool).
 
 Definition c_id (c : c10case) : Z :=
-  match c with CFn id _ _ _ _ => id | CLa id _ _ _ => id | CSeg id _ _ _ _ _ _ _ _ _ => id | CPre id _ _ _ _ => id | CLoad id _ _ _ => id end.
+  match c with CFn id _ _ _ _ => id | CLa id _ _ _ => id | CSeg id _ _ _ _ _ _ _ _ _ _ => id | CPre id _ _ _ _ => id | CLoad id _ _ _ => id end.
 
 Definition res_view (r : res bytes) : Z * bytes :=
   match r with Ok b => (0, b) | Err _ => (1, []) | Panic _ => (2, []) end.
@@ -48,16 +48,12 @@ Definition la_view (kids : list bytes) : Z * list (bytes * bytes) :=
   | Panic _ => (3, [])
   end.
 
-(** the constant IV in tenc: cbcs only, the iv padded with zeros to 16 bytes *)
-Definition constIV (p : protection) : bytes :=
-  if p_scheme p =? 1 then p_iv p ++ repeat 0 (16 - length (p_iv p)) else [].
-
 Definition seg_ok (mode : drmMode) (assetName laURL : bytes) (ctype : Z)
-           (o_mpd o_init : bytes * Z) (o_key o_civ : bytes) (o_la : list (bytes * bytes)) : bool :=
+           (o_mpd o_init : bytes * Z) (o_key o_civ : bytes) (o_la : list (bytes * bytes)) (o_served : bool) : bool :=
   match mpdProtection mode laURL ctype, initProtection mode assetName ctype, fragProtection mode assetName ctype with
   | Ok (mk, ms), Ok (ik, is_), Ok p =>
     bytes_eqb mk (fst o_mpd) && (ms =? snd o_mpd) && bytes_eqb ik (fst o_init) && (is_ =? snd o_init) &&
-    bytes_eqb (p_key p) o_key && bytes_eqb (constIV p) o_civ &&
+    bytes_eqb (p_key p) o_key && bytes_eqb (signalledIV p) o_civ && Bool.eqb (is_ok (fragmentIV p)) o_served &&
     match mode with
     | Eccp _ =>
       (* the licence handler asked for the MPD's kid *)
@@ -74,7 +70,7 @@ Definition case_ok (c : c10case) : bool :=
   match c with
   | CFn _ fn input oc oo => let '(mc, mo) := run_fn fn input in (mc =? oc) && bytes_eqb mo oo
   | CLa _ kids oc op => let '(mc, mp) := la_view kids in (mc =? oc) && list_eqb pair_eqb mp op
-  | CSeg _ mode an la ct om oi ok oiv ola => seg_ok mode an la ct om oi ok oiv ola
+  | CSeg _ mode an la ct om oi ok oiv ola osv => seg_ok mode an la ct om oi ok oiv ola osv
   | CPre _ pre has refused enc =>
     Bool.eqb (negb (is_ok (liveMPDdrm true pre))) refused && Bool.eqb (encryptsTrack true has) enc
   | CLoad _ e s o => Bool.eqb (readInitPrepares e s) o
@@ -86,9 +82,9 @@ Definition model_view (c : c10case) : Z * bytes * list (bytes * bytes) :=
   match c with
   | CFn _ fn input _ _ => let '(a, b) := run_fn fn input in (a, b, [])
   | CLa _ kids _ _ => let '(a, b) := la_view kids in (a, [], b)
-  | CSeg _ mode an la ct _ _ _ _ _ =>
+  | CSeg _ mode an la ct _ _ _ _ _ _ =>
     match mpdProtection mode la ct, initProtection mode an ct, fragProtection mode an ct with
-    | Ok (mk, ms), Ok (ik, is_), Ok p => (ms, mk, [(ik, p_key p); (constIV p, [])])
+    | Ok (mk, ms), Ok (ik, is_), Ok p => (ms, mk, [(ik, p_key p); (signalledIV p, if is_ok (fragmentIV p) then [1] else [0])])
     | _, _, _ => (-1, [], [])
     end
   | CPre _ pre has _ _ => ((if is_ok (liveMPDdrm true pre) then 0 else 1) + (if encryptsTrack true has then 10 else 0), [], [])
